@@ -63,11 +63,12 @@ def search(ctx, focus=(), deep=1):
 
 
 def check(ctx):
-    ctx.rule = ('proof: base decoder without history = full decode only (no key from a bare marker); NEC-style marker returns the held object, state unchanged; '
+    ctx.rule = ('proof: C06_wrapper for the full-frame-repeat protocols carrying the kernel-checked obligations wfAll, c01OK, c03OK, c06OK, c07OK, c08OK: for every parameter assignment in range and repeat_count 0..2 '
+                'the whole emitted sequence, fed in order to one fresh decoder, yields the encoded parameters on EVERY frame; base decoder without history = full decode only (no key from a bare marker); NEC-style marker returns the held object, state unchanged; '
                 'correspondence: real IrProtocolBase.decode histories vs model (idecode ops incl. held code and stop-timer effects); '
                 'search: ALL real protocols x parameter sets x n=0..4: the emitted sequence on one fresh decoder (each frame: the code, or RepeatLeadIn/RepeatLeadOut; at least one code), '
                 'and every single frame on a decoder without history (the code or an error, never another code). distinct = (protocol, params, n)')
-    tabs, ok = engine_prove.prove(ctx, MODULES, with_obligations=False, with_wrappers=True, wrap_kinds=('c07',))
+    tabs, ok = engine_prove.prove(ctx, MODULES, with_obligations=False, with_wrappers=True, wrap_kinds=('c06', 'c01', 'c03', 'c07', 'c08'))
     import fingerprint
     changed_p, changed_e = fingerprint.changed()
     r = vlib.rng('c06corr')
